@@ -121,6 +121,10 @@ def _s_nest(v, full, tags):
         # hash set always changes), unsorted, unforced; S-flat varies these symbolically
         c.hashes, c.sort, c.force = HSETS[1], False, False
     c.upath = ('', 'sub')[v.choice('up', 2)]
+    # what a verification of the look-alike sibling finds before the update (the stray
+    # subx/new): a sub-directory update of "sub" must not make it find more
+    c.outside = 'subx'
+    c.pre_outside = sorted(tree.oracle_verify(fs, 'Manifest', 'subx').offending)
     return c
 
 
@@ -236,6 +240,14 @@ def judge_upd(c, out):
     c.problems = problems
     if problems:
         return False, True
+    if getattr(c, 'outside', None) and c.upath:
+        # the files of a sibling directory that were described exactly before the update of
+        # c.upath still are (the Manifests on disk after an update of one directory do not
+        # describe the rest of the tree worse than before)
+        post = sorted(tree.oracle_verify(c.post, 'Manifest', c.outside).offending)
+        if post != c.pre_outside:
+            c.problems = [('outside-the-updated-directory', c.outside, post)]
+            return False, True
     return c.fresh == 'true', True
 
 
